@@ -789,9 +789,11 @@ namespace randomx {
 			state.emit(rvi(rv64::SUB, regR(isn.dst), regR(isn.dst), regR(isn.src)));
 		}
 		else {
-			int32_t imm = unsigned32ToSigned2sCompl(-isn.getImm32()); //convert to add
-			//x{dst} = x{dst} + {-imm}
-			emitImm32(state, imm, regR(isn.dst), regR(isn.dst), Tmp1Reg);
+			//x8 = sign-extended imm32
+			//(adding the negated 32-bit immediate is wrong for 0x80000000, which has no 32-bit negative)
+			emitImm32(state, unsigned32ToSigned2sCompl(isn.getImm32()), Tmp1Reg);
+			//sub x{dst}, x{dst}, x8
+			state.emit(rvi(rv64::SUB, regR(isn.dst), regR(isn.dst), Tmp1Reg));
 		}
 	}
 
